@@ -20,7 +20,11 @@ RULE = ("seeded random cases: group_by / group_by_until / partition with key fun
         "that fires (element or completion, never synchronously) at a generated offset or never. A probe is subscribed "
         "to every group inside the outer on_next. The model is a dict key -> list fed with the OBSERVED emissions of "
         "the source and of the duration probes; every delivery is attributed (by event sequence number) to the source "
-        "emission that carried it. non-trivial = the operator was offered >= 1 element; distinct = digest of "
+        "emission that carried it. Two more families: durations derived from the group itself (g.pipe(skip(m-1))), judged for "
+        "routing, expiry, terminals and escapes; group life cycles over a hot source (outer subscription ended early by take(m) / "
+        "dispose / dispose from inside a group subscriber's first on_next, group subscribers arriving late and leaving early, "
+        "groups backed by Subject / ReplaySubject / BehaviorSubject): the source stays subscribed exactly while the outer or any "
+        "group subscription is alive and every group subscriber gets what its kind of subject owes it. non-trivial = the operator was offered >= 1 element; distinct = digest of "
         "(operator, parameters, timelines)")
 ASSUMPTIONS = ["TestScheduler / HistoricalScheduler are the clocks (ordering checked by C28)",
                "probe sources and probe observers are harness code (conforming)",
@@ -37,7 +41,10 @@ REQUIRED = {"set:ops": 3, "set:keys": 7, "derived_duration_elements": {"quick": 
             "elements_joining_group_of_equal_key_of_other_type": {"quick": 30, "thorough": 600},
             "groups_reborn_after_expiry": {"quick": 50, "thorough": 1000},
             "source_error_with_2_or_more_open_groups": {"quick": 30, "thorough": 600},
-            "partition_elements_checked": {"quick": 500, "thorough": 10000}}
+            "partition_elements_checked": {"quick": 500, "thorough": 10000},
+            "lifecycle_cases": {"quick": 800, "thorough": 100000},
+            "lifecycle_source_held_by_a_group_subscriber_after_outer_ended": {"quick": 300, "thorough": 30000},
+            "lifecycle_groups_subscribed_after_outer_ended": {"quick": 200, "thorough": 20000}}
 STEPS = (0, 5, 5, 10, 10, 15, 1, 4, 6, 20)
 T0 = SUB_AT
 
@@ -381,15 +388,214 @@ def derived_duration_case(seed: int, idx: int, res: UnitResult) -> None:
         problem[1]["groups"] = [[k, [[t, kk, show(v)] for (t, kk, v) in tr]] for k, tr in groups]
         res.violation(problem[0], problem[1], {"seed": seed, "idx": idx, "family": "derived"})
 
+def lifecycle_case(seed: int, idx: int, res: UnitResult) -> None:
+    """group_by over a hot source where the groups are NOT all subscribed inside the outer on_next and do not all stay
+    subscribed: the outer subscription ends early (take(m) or an explicit dispose, also from inside a group subscriber's
+    first on_next), group subscribers arrive late and leave early, groups are Subject / ReplaySubject / BehaviorSubject
+    (subject_mapper). Reference model: the source stays subscribed while the outer subscription or any group subscription
+    is alive (and is released exactly when the last of them goes, or at its terminal); while it is subscribed every element
+    goes to the subject of its key; a group subscriber gets what that kind of subject owes a subscriber that is subscribed
+    over [t_sub, t_unsub)."""
+    from reactivex.subject import BehaviorSubject, ReplaySubject
+    r = case_rng(seed, ID, "lifecycle", idx)
+    nkeys = r.randint(2, 3)
+    n = r.randint(3, 8)
+    kind = r.choice(["subject", "subject", "replay", "behavior"])
+    term = r.choice(["C", "E", None, None])
+    times = sorted(r.sample(range(10, 100, 5), n))
+    from ..vlab import SrcErr
+    err = SrcErr("source failed")
+    msgs = [(T0 + t, "N", r.randint(0, 9)) for t in times]
+    t_term = T0 + 105
+    if term:
+        msgs.append((t_term, term, err if term == "E" else None))
+    keyf = lambda v: v % nkeys  # noqa: E731
+    outer_end = r.choice(["take", "take", "dispose_at", "dispose_in_group_on_next", "never"])
+    m = r.randint(1, nkeys)
+    t_outer_dispose = T0 + r.choice([22, 47, 63])
+    lab = Lab("num")
+    src = lab.hot("s", msgs)
+    plans: list = []       # per group (in order of appearance): (subscribe offset, dispose offset or None)
+    for _ in range(nkeys):
+        plans.append((r.choice([0, 0, 7, 23, 41]), r.choice([None, None, 12, 31, 55])))
+    subject_mapper = {"subject": None, "replay": (lambda: ReplaySubject()), "behavior": (lambda: BehaviorSubject("init"))}[kind]
+    o = src.pipe(ops.group_by(keyf, None, subject_mapper))
+    if outer_end == "take":
+        o = o.pipe(ops.take(m))
+    gsubs: list = []       # dicts: key, obs, t_sub, t_unsub
+    top_holder: dict = {}
+
+    def on_recv(k: str, g: Any, obs: Any) -> None:
+        if k != "N":
+            return
+        gi = len(gsubs)
+        off, doff = plans[gi] if gi < len(plans) else (0, None)
+        rec = {"key": g.key, "obs": lab.observer("g%d" % gi, inner=False), "t_sub": None, "t_unsub": None, "t_group": lab.now(), "sync": off == 0,
+               "create_seq": max(e[0] for e in lab.ev if e[2] == "emit" and e[3] == "s")}
+        gsubs.append(rec)
+        if outer_end == "dispose_in_group_on_next" and gi == 0:
+            fired = [False]
+
+            def hook(kk: str, vv: Any, oo: Any) -> None:
+                if kk == "N" and not fired[0]:
+                    fired[0] = True
+                    top_holder["top"].dispose()
+                    rec_outer["t"] = lab.now()
+                    rec_outer["seq"] = len(lab.ev)
+            rec["obs"].on_recv = hook
+
+        def do_sub() -> None:
+            rec["t_sub"] = lab.now()
+            rec["sub_seq"] = len(lab.ev)
+            rec["obs"].subscribe_to(g)
+
+        def do_unsub() -> None:
+            rec["obs"].dispose()
+            rec["t_unsub"] = lab.now()
+            rec["unsub_seq"] = len(lab.ev)
+        if off == 0:
+            do_sub()
+        else:
+            lab.at(lab.now() + off, do_sub)
+        if doff is not None:
+            lab.at(lab.now() + off + doff, do_unsub)
+    rec_outer: dict = {"t": None, "seq": None}
+    top = lab.observer("top", inner=False, on_recv=on_recv)
+    top_holder["top"] = top
+    lab.at(T0, lambda: top.subscribe_to(o))
+    if outer_end == "dispose_at":
+        def disp_outer() -> None:
+            top.dispose()
+            rec_outer["t"] = lab.now()
+            rec_outer["seq"] = len(lab.ev)
+        lab.at(t_outer_dispose, disp_outer)
+    lab.at(T0 + 300, lambda: [g["obs"].dispose() for g in gsubs])
+    lab.run()
+    desc = {"family": "lifecycle", "subject": kind, "keys": nkeys, "timeline": show_timeline(msgs), "outer": outer_end, "take": m if outer_end == "take" else None,
+            "outer_dispose_at": t_outer_dispose if outer_end == "dispose_at" else None, "group_plans": plans}
+    res.count("lifecycle_cases")
+    # ---- reference model over the event log (sequence numbers order everything)
+    ev = lab.ev
+    subs = list(lab.open_subscriptions().items())
+    problem = None
+    BIG = 10 ** 9
+    if len(subs) != 1:
+        problem = ("source-subscriptions", {"subscriptions": len(subs)})
+    else:
+        (_, (sub_e, unsub_e)) = subs[0]
+        src_term = next((e for e in ev if e[2] == "emit" and e[3] == "s" and e[5] in "EC"), None)
+
+        def dispose_span(name: str) -> tuple | None:
+            c = next((e[0] for e in ev if e[2] == "dispose_call" and e[3] == name), None)
+            rr = next((e[0] for e in ev if e[2] == "dispose_ret" and e[3] == name), None)
+            return None if c is None else (c, rr if rr is not None else BIG)
+        # holders of the source: (first seq at which it holds, first seq at which its release may happen, last seq of its release)
+        holders = []
+        tt = top.terminal
+        osp = dispose_span("top")
+        if tt is not None and (osp is None or tt[3] < osp[0]):
+            holders.append(("outer", sub_e[0], tt[3], tt[3] + 3))
+        elif osp is not None:
+            holders.append(("outer", sub_e[0], osp[0], osp[1]))
+        else:
+            holders.append(("outer", sub_e[0], BIG, BIG))
+        for g in gsubs:
+            if g.get("sub_seq") is None:
+                continue
+            sp = dispose_span(g["obs"].name)
+            gt = g["obs"].terminal
+            if gt is not None and (sp is None or gt[3] < sp[0]):
+                holders.append((g["obs"].name, g["sub_seq"], gt[3], gt[3] + 3))
+            elif sp is not None:
+                holders.append((g["obs"].name, g["sub_seq"], sp[0], sp[1]))
+            else:
+                holders.append((g["obs"].name, g["sub_seq"], BIG, BIG))
+        # the source is held from its subscription on; walk forward: it is released at the end of the last holder that
+        # started holding before the release
+        cur = holders[0]
+        while True:
+            nxt = [h for h in holders if h is not cur and h[1] <= cur[2] and h[2] > cur[2]]
+            if not nxt:
+                break
+            cur = max(nxt, key=lambda h: h[2])
+        rel_from, rel_to = cur[2], cur[3]
+        res.count("lifecycle_group_subscriptions", len(holders) - 1)
+        if holders[0][2] < BIG and any(h[1] > holders[0][2] for h in holders[1:]):
+            res.count("lifecycle_groups_subscribed_after_outer_ended")
+        if cur is not holders[0]:
+            res.count("lifecycle_source_held_by_a_group_subscriber_after_outer_ended")
+        by_terminal = src_term is not None and src_term[0] < rel_from
+        if not by_terminal and rel_from < BIG:
+            if unsub_e is None:
+                problem = ("source-never-released", {"last_holder": cur[0]})
+            elif unsub_e[0] < rel_from:
+                problem = ("source-released-while-a-subscriber-was-live", {"released_at": unsub_e[1], "holder_still_live": cur[0]})
+            elif unsub_e[1] > ev[min(rel_to, len(ev) - 1)][1]:
+                problem = ("source-released-late", {"released_at": unsub_e[1], "last_holder": cur[0]})
+        open_until = unsub_e[0] if unsub_e is not None else BIG
+        if problem is None:
+            emits_n = [e for e in ev if e[2] == "emit" and e[3] == "s" and e[5] == "N" and sub_e[0] < e[0] < open_until]
+            routed = [(e[0], e[1], e[6]) for e in emits_n]
+            # the element during whose delivery the source was released (outer ended inside on_next(group)): either way is accepted
+            ambiguous = None
+            if routed and unsub_e is not None and not any(e[2] == "emit" and routed[-1][0] < e[0] < unsub_e[0] for e in ev) and routed[-1][1] == unsub_e[1]:
+                ambiguous = routed[-1]
+            term_e = src_term if (src_term is not None and src_term[0] < open_until) else None
+            for g in gsubs:
+                if g.get("sub_seq") is None:
+                    continue
+                key = g["key"]
+                a = g["sub_seq"]
+                sp = dispose_span(g["obs"].name)
+                b = sp[0] if sp is not None else BIG
+                alts = []
+                for drop in ([None, ambiguous] if ambiguous is not None and keyf(ambiguous[2]) == key else [None]):
+                    mine = [(q, t, v) for (q, t, v) in routed if keyf(v) == key and (q, t, v) != drop]
+                    exp: list = []
+                    # (the element that created the group is written to it after on_next(group) returned: a subscriber that
+                    #  subscribed inside that on_next is already there)
+                    early = lambda x: x[0] < a and not (g["sync"] and x[0] == g["create_seq"])  # noqa: E731
+                    before = [x for x in mine if early(x)]
+                    if kind == "replay":
+                        exp += [(g["t_sub"], "N", v) for (q, t, v) in before]
+                    elif kind == "behavior" and not (term_e is not None and term_e[0] < a):
+                        exp.append((g["t_sub"], "N", before[-1][2] if before else "init"))
+                    exp += [(t, "N", v) for (q, t, v) in mine if not early((q, t, v)) and q < b]
+                    if term_e is not None and term_e[0] < b:
+                        exp.append((max(term_e[1], g["t_sub"]), term_e[5], None if term_e[5] == "C" else term_e[6]))
+                    alts.append(exp)
+                got = g["obs"].timed()
+
+                def same(exp: list) -> bool:
+                    return len(exp) == len(got) and all(x[0] == y[0] and x[1] == y[1] and (x[1] != "N" or strict(x[2]) == strict(y[2])) and (x[1] != "E" or x[2] is y[2])
+                                                         for x, y in zip(exp, got))
+                res.count("lifecycle_deliveries_checked", len(alts[0]))
+                if not any(same(x) for x in alts):
+                    lost = len(got) < len(alts[0])
+                    problem = ("group-subscriber-%s" % ("lost-notifications" if lost else "got-unexpected-notifications"),
+                               {"group_key": key, "subscribed_at": g["t_sub"], "unsubscribed_at": g["t_unsub"], "expected": show([list(x) for x in alts[0]]), "got": show([list(x) for x in got])})
+                    break
+    res.case(key=desc, nontrivial=len(gsubs) >= 1, sample={"case": desc, "groups": [[g["key"], g["t_sub"], g["t_unsub"], show(g["obs"].timed())] for g in gsubs]} if idx % 40 == 0 else None)
+    if problem is not None:
+        problem[1]["case"] = desc
+        problem[1]["trace"] = show([list(e[1:7]) for e in ev][:60])
+        res.violation("C19:group_by:lifecycle:%s" % problem[0], problem[1], {"seed": seed, "idx": idx, "family": "lifecycle"})
+
+
 def run_unit(unit: dict, res: UnitResult) -> None:
     for idx in range(unit["lo"], unit["hi"]):
         run_case(unit["seed"], idx, res)
         if idx % 5 == 0:
             derived_duration_case(unit["seed"], idx, res)
+        if idx % 4 == 1:
+            lifecycle_case(unit["seed"], idx, res)
 
 
 def replay(rep: dict, res: UnitResult) -> None:
     if rep.get("family") == "derived":
         derived_duration_case(rep["seed"], rep["idx"], res)
+        return
+    if rep.get("family") == "lifecycle":
+        lifecycle_case(rep["seed"], rep["idx"], res)
         return
     run_case(rep["seed"], rep["idx"], res)
